@@ -192,6 +192,53 @@ Definition a_DRepVotingThresholds := JRec [
   (nm "pp_economic_group", a_UnitInterval); (nm "pp_technical_group", a_UnitInterval);
   (nm "pp_governance_group", a_UnitInterval); (nm "treasury_withdrawal", a_UnitInterval)].
 
+(* protocol parameters *)
+Definition a_CostModel := JSeq intstr.
+Definition a_Costmdls :=
+  JMapObj (LEnumStr [nm "PlutusV1"; nm "PlutusV2"; nm "PlutusV3"]) (enc Language) a_CostModel.
+Definition a_ProtocolParamUpdate := JOptRec [
+  (nm "minfee_a", numstr); (nm "minfee_b", numstr); (nm "max_block_body_size", u32); (nm "max_tx_size", u32);
+  (nm "max_block_header_size", u32); (nm "key_deposit", numstr); (nm "pool_deposit", numstr); (nm "max_epoch", u32);
+  (nm "n_opt", u32); (nm "pool_pledge_influence", a_UnitInterval); (nm "expansion_rate", a_UnitInterval);
+  (nm "treasury_growth_rate", a_UnitInterval); (nm "d", a_UnitInterval); (nm "extra_entropy", a_Nonce);
+  (nm "protocol_version", a_ProtocolVersion); (nm "min_pool_cost", numstr); (nm "ada_per_utxo_byte", numstr);
+  (nm "cost_models", a_Costmdls); (nm "execution_costs", a_ExUnitPrices); (nm "max_tx_ex_units", a_ExUnits);
+  (nm "max_block_ex_units", a_ExUnits); (nm "max_value_size", u32); (nm "collateral_percentage", u32);
+  (nm "max_collateral_inputs", u32); (nm "pool_voting_thresholds", a_PoolVotingThresholds);
+  (nm "drep_voting_thresholds", a_DRepVotingThresholds); (nm "min_committee_size", u32); (nm "committee_term_limit", u32);
+  (nm "governance_action_validity_period", u32); (nm "governance_action_deposit", numstr); (nm "drep_deposit", numstr);
+  (nm "drep_inactivity_period", u32); (nm "ref_script_coins_per_byte", a_UnitInterval)].
+Definition a_ProposedProtocolParameterUpdates := JMapObj (LHex 28 28) (enc H28) a_ProtocolParamUpdate.
+Definition a_Update := JRec [(nm "proposed_protocol_parameter_updates", a_ProposedProtocolParameterUpdates); (nm "epoch", u32)].
+
+(* voting *)
+Definition a_VotingProcedures :=
+  pairs_iso (JRec [(nm "voter", a_Voter);
+                   (nm "votes", pairs_iso (JRec [(nm "action_id", a_GovernanceActionId); (nm "voting_procedure", a_VotingProcedure)]))]).
+Definition a_CommitteeMembers := pairs_iso (JRec [(nm "stake_credential", a_Credential); (nm "term_limit", u32)]).
+(* UpdateCommitteeAction: wire [gov_action_id, members_to_remove, members, quorum]; JSON {gov_action_id, committee: {members,
+   quorum_threshold}, members_to_remove} *)
+Definition a_UpdateCommitteePayload :=
+  JIso (fun v => match v with VList [g; rem; mem; q] => VList [g; VList [mem; q]; rem] | _ => v end)
+       (fun v => match v with VList [g; VList [mem; q]; rem] => VList [g; rem; mem; q] | _ => v end)
+       (JRec [(nm "gov_action_id", JNullable a_GovernanceActionId);
+              (nm "committee", JRec [(nm "members", a_CommitteeMembers); (nm "quorum_threshold", a_UnitInterval)]);
+              (nm "members_to_remove", a_Credentials)]).
+Definition a_GovernanceAction := JEnum [
+  (nm "ParameterChangeAction", Some (JRec [(nm "gov_action_id", JNullable a_GovernanceActionId);
+                                           (nm "protocol_param_updates", a_ProtocolParamUpdate);
+                                           (nm "policy_hash", JNullable hex28)]));
+  (nm "HardForkInitiationAction", Some (JRec [(nm "gov_action_id", JNullable a_GovernanceActionId);
+                                              (nm "protocol_version", a_ProtocolVersion)]));
+  (nm "TreasuryWithdrawalsAction", Some (JRec [(nm "withdrawals", a_TreasuryWithdrawals); (nm "policy_hash", JNullable hex28)]));
+  (nm "NoConfidenceAction", Some (JRec [(nm "gov_action_id", JNullable a_GovernanceActionId)]));
+  (nm "UpdateCommitteeAction", Some a_UpdateCommitteePayload);
+  (nm "NewConstitutionAction", Some (JRec [(nm "gov_action_id", JNullable a_GovernanceActionId); (nm "constitution", a_Constitution)]));
+  (nm "InfoAction", Some (JTuple []))].
+Definition a_VotingProposal := JRec [(nm "deposit", numstr); (nm "reward_account", reward_addr);
+                                     (nm "governance_action", a_GovernanceAction); (nm "anchor", a_Anchor)].
+Definition a_VotingProposals := JSeq a_VotingProposal.
+
 (* witnesses and header parts *)
 Definition a_Vkeywitness := JRec [(nm "vkey", JLeaf (LExt EXT_VKEY)); (nm "signature", hex64)].
 Definition a_Vkeywitnesses := JSeq a_Vkeywitness.
@@ -251,7 +298,15 @@ Definition serde_table (d : nat) : list (bytes * schema * jshape) := [
   (nm "Vkeywitness", Vkeywitness, a_Vkeywitness);
   (nm "Vkeywitnesses", Vkeywitnesses, a_Vkeywitnesses);
   (nm "OperationalCert", OperationalCert, a_OperationalCert);
-  (nm "Int", IntS, a_Int)
+  (nm "Int", IntS, a_Int);
+  (nm "Costmdls", Costmdls, a_Costmdls);
+  (nm "ProtocolParamUpdate", ProtocolParamUpdate, a_ProtocolParamUpdate);
+  (nm "ProposedProtocolParameterUpdates", ProposedProtocolParameterUpdates, a_ProposedProtocolParameterUpdates);
+  (nm "Update", Update, a_Update);
+  (nm "VotingProcedures", VotingProcedures, a_VotingProcedures);
+  (nm "GovernanceAction", GovernanceAction, a_GovernanceAction);
+  (nm "VotingProposal", VotingProposal, a_VotingProposal);
+  (nm "VotingProposals", VotingProposals, a_VotingProposals)
 ].
 
 (* placeholder string form of externally produced strings (bech32): the harness rewrites every such string of the
